@@ -302,6 +302,17 @@ def run_case_full(case, scratch):
             pass
       except sqlworld.TooExpensive:
         pass
+      except ProvenEmpty as e0:
+        # the diagnostic concerns the EARLIER version: judge it against that version's reference
+        try:
+          R0 = ref.evaluate(sp)
+          base0 = (e0.predicate or '').split('_')[0]
+          if not (base0 in R0.rel and not R0.rel[base0]):
+            vs.append({'class': 'rejected-valid-program', 'key': 'proven-empty',
+                       'message': '(earlier version) compiler says %s is empty; reference T^(d+1) has %s' % (
+                           e0.predicate, sorted(R0.rel.get(base0, {}))[:5])})
+        except OverflowError:
+          pass
       snap = sqlworld.snapshot_file(dbpath)
       info['stale_present'] = any('_ifr' in t or t in gen.idb_names(program) for t in snap)
     if case.get('faults') and dbpath:
@@ -395,7 +406,7 @@ def shrink(case):
 
 def plan(tier):
   if tier == 'quick':
-    return {'batches': 48, 'timeout': 600, 'cases': 9, 'wall_budget_s': 240}
+    return {'batches': 48, 'timeout': 1500, 'cases': 9, 'wall_budget_s': 240}
   return {'batches': 640, 'timeout': 1800, 'cases': 24, 'wall_budget_s': 3000}
 
 
